@@ -7,13 +7,14 @@
 //! (broker encoder -> client decoder). The router is driven by its real `run_inner`.
 pub mod hostile;
 pub mod model;
+pub mod multi;
 pub mod props;
 pub mod run;
 
 use crate::vcore::explore::World;
 use crate::vcore::{catch, fp128, Violation};
 use crate::wire::{self, Out, Props, Rx, Tx};
-use model::Model;
+use multi::Models;
 use parking_lot::Mutex;
 use rumqttd::protocol as bp;
 use rumqttd::verif::{Event, OrderPolicy, PendingLink, ShadowRequest, VerifLink};
@@ -220,7 +221,7 @@ pub struct RouterWorld {
     pub manual: bool,
     pub next_uid: u32,
     pub tag: u32,
-    pub model: Model,
+    pub model: Models,
     pub dead: Option<String>,
     pub turns: u64,
     /// violations raised by asynchronous steps (drains) since the last apply
@@ -441,9 +442,7 @@ impl RouterWorld {
                     return;
                 }
                 for tx in pushed {
-                    if !self.model.registered(ci) {
-                        break;
-                    }
+                    // (a model in which the connection has ended ignores the rest)
                     self.model.consumed(ci, &tx);
                 }
             }
@@ -479,7 +478,7 @@ impl RouterWorld {
             return true;
         };
         for tx in txs {
-            if tx == Tx::CloseMark {
+            if tx.is_marker() {
                 l.pushed.push(tx);
                 continue;
             }
@@ -601,6 +600,31 @@ impl RouterWorld {
             eprintln!("    rx {} {}", NAMES[ci], format!("{rx:?}").chars().take(160).collect::<String>());
         }
         self.model.received(ci, &rx);
+    }
+
+    /// drop the alternative models that no longer explain what has been observed; when the
+    /// router has handled everything it was sent, that includes who is still connected
+    fn resolve_alternatives(&mut self) {
+        if self.model.alternatives() == 1 {
+            return;
+        }
+        #[cfg(feature = "snapshot")]
+        if !self.manual && self.outbox.is_empty() {
+            if let Some(r) = self.router.as_ref() {
+                let snap = r.verif_snapshot();
+                let mut have: Vec<&str> = snap.connection_map.iter().map(|(k, _)| k.as_str()).collect();
+                have.sort();
+                self.model.resolve(Some(&have));
+                // the premise of the closure-time oracles may already hold here
+                let quiet = self.clients.iter().all(|c| c.unacked.is_empty() && c.rels.is_empty() && c.link.as_ref().is_none_or(|l| !l.stalled && l.obuf.lock().is_empty()))
+                    && self.ended.iter().all(|e| e.pending.is_empty() || e.auto);
+                if quiet {
+                    self.model.resolve_quiet();
+                }
+                return;
+            }
+        }
+        self.model.resolve(None);
     }
 
     fn link_closed_by_router(&mut self, ci: usize) {
@@ -1025,7 +1049,7 @@ impl World for RouterWorld {
             manual: false,
             next_uid: 0,
             tag: 0,
-            model: Model::new(cfg),
+            model: Models::new(cfg),
             dead: None,
             turns: 0,
             pending_viols: vec![],
@@ -1077,6 +1101,7 @@ impl World for RouterWorld {
                 self.check_late_effect(&name, id, &ev, &before);
             }
         }
+        self.resolve_alternatives();
         out.append(&mut self.pending_viols);
         self.model.take_violations(self.prop, out);
     }
@@ -1105,6 +1130,7 @@ impl World for RouterWorld {
             return 0;
         }
         props::closure(&mut self, cfg);
+        self.resolve_alternatives();
         if cfg.prop == "C03" {
             self.probe();
         }
